@@ -8,7 +8,7 @@ PROP = 'C03'
 RULE = ("record lists written with VbsWriter (class API, write_many, context manager) or vbs_list_to_bytes and read back "
         "with VbsReader / vbs_bytes_to_list, blocked and unblocked: every single-record length 1..6000 in both formats "
         "(exhaustive), multi-record files whose prefixes and record ends fall on payload offsets 1008..1016 mod 1012, "
-        "contents with 0x00 / 0x40 runs and embedded zero lengths, random lists. Non-trivial = more than one record, or a "
+        "contents with 0x00 / 0x40 runs and embedded zero lengths, the convenience functions with their default arguments on 0x40-filled data, random lists. Non-trivial = more than one record, or a "
         "record/prefix touching a block boundary, or special content; distinct = distinct (format, api, record list)")
 TRUSTED = ["Model/Vbs.lean models VbsWriter.write/close, VbsReader.__next__, Block1014, Unblock1014 and the BytesIO file "
            "position semantics (hand-written; tied by this correspondence)",
@@ -33,6 +33,8 @@ def write_file(case, recs):
     api = case.get('api', 'class')
     if api == 'func':
         return mciipm.vbs_list_to_bytes(recs, blocked=blocked)
+    if api == 'funcdef':      # the convenience function with its defaults (no keyword at all): unblocked
+        return mciipm.vbs_list_to_bytes(recs)
     f = KeepOpen()
     if api == 'with':
         with mciipm.VbsWriter(f, blocked=blocked) as w:
@@ -50,9 +52,10 @@ def impl_eval(case):
     recs = records_of(case)
     blocked = bool(case['b'])
     data = write_file(case, recs)
-    if case.get('api') == 'func':
+    if case.get('api') in ('func', 'funcdef'):
         try:
-            back, exc = mciipm.vbs_bytes_to_list(data, blocked=blocked), None
+            back = mciipm.vbs_bytes_to_list(data, blocked=blocked) if case['api'] == 'func' else mciipm.vbs_bytes_to_list(data)
+            exc = None
         except Exception as ex:  # noqa
             back, exc = [], ex
     else:
@@ -121,6 +124,14 @@ def explore(run, tier):
             cases.append({'b': b, 'hex': [h], 'api': apis[i % 3]})
             cases.append({'b': b, 'hex': [h, '01', h], 'api': apis[(i + 1) % 3]})
             cases.append({'b': b, 'hex': [special[(i + 3) % len(special)], h], 'api': apis[(i + 2) % 3]})
+    # the convenience functions called with their defaults (unblocked), on content that looks like block
+    # trailers: 0x40 (EBCDIC space) at payload offsets 1012-1013 and 2026-2027
+    for h in special:
+        cases.append({'b': 0, 'hex': [h], 'api': 'funcdef'})
+    for n in (1008, 1009, 1010, 1011, 1012, 2022, 2023, 2024, 2025, 2026, 2100, 3040, 6000):
+        cases.append({'b': 0, 'hex': ['40' * n], 'api': 'funcdef'})
+        cases.append({'b': 0, 'hex': ['40' * 800, '40' * n, '40' * 800], 'api': 'funcdef'})
+        cases.append({'b': 0, 'lens': [n, 800, n], 'api': 'funcdef'})
     for b in (0, 1):
         cases.append({'b': b, 'lens': [], 'api': 'class'})
         cases.append({'b': b, 'lens': [ml, ml, ml], 'api': 'func'})
